@@ -199,6 +199,9 @@ NQ == Len(Queries)
 DepOrder == [i \in 1..NQ |-> ((i - 1 + (CodeOf(idx) \div 2)) % NQ) + 1]
 SameChart == CodeOf(idx) % 2 = 1
 
+\* the deprecated mark of an entry takes no part in anything above: no operator reads Kinds[..].dep
+\* (the kinds that carry it are enumerated so that the replay shows the real code ignores it too)
+
 Inv_LockList == \A i \in 1..NQ : LockList(DepOrder)[i] = LockOK(DepOrder[i])
 
 CaseRecord ==
